@@ -271,7 +271,12 @@ MALFORMED = {
 
 
 def check_malformed(ctx, tz):
-    for name, text in MALFORMED.items():
+    defs = dict(MALFORMED)
+    # component names that are not STANDARD / DAYLIGHT - also near misses, prefixes, suffixes and other iCalendar components
+    for comp in ('DAYLIGH', 'STANDAR', 'DAY', 'STAND', 'LIGHT', 'D', 'S', 'STANDARDS', 'DAYLIGHTS', 'TANDARD', 'AYLIGHT', 'VALARM', 'VEVENT', 'standard ', ''):
+        defs['unknown-component-%r' % comp] = MALFORMED['unknown-component'].replace('TWILIGHT', comp)
+        defs['unknown-second-component-%r' % comp] = VALID_BASE.replace('BEGIN:DAYLIGHT', 'BEGIN:' + comp).replace('END:DAYLIGHT', 'END:' + comp)
+    for name, text in defs.items():
         for t in (text, text.replace('\n', '\r\n')):
             ctx.ev()
             ctx.count('malformed_definitions')
